@@ -105,6 +105,7 @@ type GhostStmt struct {
 	Field  string
 	Owner  string // for bulk: type name
 	V      Expr
+	Idx    Expr
 	Text   string
 	Line   int
 }
@@ -353,7 +354,11 @@ func (p *parser) parseUnary() Expr {
 	if t.k == "op" && t.s == "\\" {
 		p.p++
 		bs := p.parseBinders()
-		p.expectOp(".")
+		if p.isOp("=>") {
+			p.p++
+		} else {
+			p.expectOp(".")
+		}
 		body := p.parseExpr(0)
 		return &ELambda{bs, body}
 	}
@@ -919,6 +924,13 @@ func parseSpecFile(pkg string, f *ast.File, lineOf func(ast.Node) int) (*SpecFil
 				}
 				if id, isId := te.(*EIdent); isId {
 					g.Kind, g.Field = "var", id.Name
+				} else if ix, isIx := te.(*EIndex); isIx {
+					// X.f[k] := v   (one entry of a ghost map field)
+					fe, ok := ix.X.(*EField)
+					if !ok {
+						return nil, fmt.Errorf("line %d: ghost map target must be X.field[k]", d.line)
+					}
+					g.Kind, g.X, g.Field, g.Idx = "mapelem", fe.X, fe.Name, ix.I
 				} else {
 					fe, ok := te.(*EField)
 					if !ok {
